@@ -1665,6 +1665,17 @@ def r05_7(ctx):
     alts = an.phi_terms(clip) if clip[0] in ('phi', 'rec') else [clip]
     # one aggregate assembled from a joined tuple counts once per alternative
     alts = [v for t0 in alts for _bb, v in shared.value_variants(an, strip_all(t0))]
+    # ... and so does one whose rect field alone is a join (the tuple having been split into scalars)
+    alts2 = []
+    for t0 in alts:
+        t0 = strip_all(t0)
+        r0 = strip_all(dict(t0[4]).get('rect')) if t0[0] == 'agg' and isinstance(t0[4], tuple) and dict(t0[4]).get('rect') is not None else None
+        if r0 is not None and r0[0] in ('phi', 'rec') and len(an.phi_terms(r0)) >= 2:
+            for rv in an.phi_terms(r0):
+                alts2.append(t0[:4] + (tuple((k, (rv if k == 'rect' else v)) for k, v in t0[4]),) + t0[5:])
+        else:
+            alts2.append(t0)
+    alts = alts2
     n = 0
     for t in alts:
         t = strip_all(t)
